@@ -274,12 +274,19 @@ def tasks(tier):
         for nspin in (1, 2):
             out.append(Task("libxc_split/%s/nspin%d" % (xcid, nspin), h_libxc_split, dict(xcid=xcid, nspin=nspin)))
     out.append(Task("global_linear", h_global_linear, {}))
+    # the C-backed evaluators (value and gradient consistent with each other and with the kernel), through the IR of model_utils.c
+    from . import c11
+    out.append(Task("c_evaluator/RBFEvaluator", c11.h_rbf, dict(kind="const*full"), mods="kernels", max_paths=16))
+    out.append(Task("c_evaluator/AntisymRBFEvaluator", c11.h_antisym, {}, mods="kernels", max_paths=16))
+    out.append(Task("c_evaluator/SpinRBFEvaluator", c11.h_spin, {}, mods="kernels", max_paths=16))
     return out
 
 
 def prepare(tier):
     m = sym_mods()
     m.td, m.fn, m.settings, m.baselines, m.xc_evaluator, m.xc_evaluator2, m.kernels
+    from . import c11
+    c11.prepare(tier)
     # every key of BASELINE_CODES must be covered by a task
     keys = set(m.baselines.BASELINE_CODES)
     have = {"RHO", "ZERO", "ONE", "LDA_X", "NLDA_X_DAMP", "GGA_X_PBE", "GGA_X_CHACHIYO", "GGA_C_PBE"}
